@@ -7,6 +7,7 @@ import Driver.L5
 import Driver.L6
 import Driver.L7
 import Driver.L8
+import Driver.L9
 open Clap.Driver
 
 def dispatch (line : String) : String :=
@@ -38,6 +39,9 @@ def dispatch (line : String) : String :=
     | some r => r
     | none =>
     match handleL8 cmd args with
+    | some r => r
+    | none =>
+    match handleL9 cmd args with
     | some r => r
     | none => "bad-op"
 
